@@ -236,7 +236,8 @@ def invert(W, copy=True):
         inverted connectivity matrix
     '''
     if copy:
-        W = W.copy()
+        # integer (or boolean) storage cannot hold 1/w: work on a float copy
+        W = W.astype(float) if W.dtype.kind in 'iub' else W.copy()
     E = np.where(W)
     W[E] = 1. / W[E]
     return W
